@@ -43,6 +43,13 @@ def case_strategy():
         for name, f in c["tree"].items():
             if name.endswith((".h", ".hpp")) and draw(st.integers(0, 2)) == 0:
                 f["items"] = [["once"]] + f["items"]
+        # a shared header whose condition depends on a -D macro only through another macro
+        if draw(st.booleans()):
+            base = draw(st.sampled_from(["A", "B", "C", "D"]))
+            c["tree"]["ind.h"] = {"items": [["undef", "IND"], ["define", "IND", base], ["chain", [["if", ["cmp", "IND", draw(st.sampled_from([">", "=="])), draw(st.sampled_from([0, 1, 2]))], [["code", 1]]]], [["code", 1]]], ["code", 1]], "style": [0]}
+            for name, f in c["tree"].items():
+                if name != "ind.h" and not name.endswith((".h", ".hpp")):
+                    f["items"] = [["include", "quote", os.path.relpath("ind.h", os.path.dirname(name) or ".")]] + f["items"]
         c["perm_seed"] = draw(st.integers(0, 10**6))
         c["subset_mask"] = draw(st.integers(1, 15))
         return c
